@@ -287,7 +287,8 @@ def _fault_like(world, seed, params, mode):
     knobs = {'allocation_conflict_retry_count': rng.choice([1, 2, 3, 10])}
     run = F.FaultRun(world, seed, mode, knobs=knobs,
                      max_points=params.get('max_points'),
-                     pairs=params.get('pairs', 0))
+                     pairs=params.get('pairs', 0),
+                     variant=params.get('variant'))
     findings = run.run()
     out = {'findings': [], 'requests': run.stats['requests'],
            'probes': dict(run.stats['probes']), 'faults': run.stats['faults'],
